@@ -3,6 +3,7 @@
 import io
 import json
 import os
+import re
 import subprocess
 import sys
 import tempfile
@@ -40,7 +41,8 @@ def shards(tier):
     nh = 10 if tier == 'quick' else 32
     nt = 8 if tier == 'quick' else 32
     return ([{'name': 'hist%02d' % i, 'kind': 'hist', 'part': i, 'parts': nh} for i in range(nh)] +
-            [{'name': 'thread%02d' % i, 'kind': 'thread', 'part': i} for i in range(nt)])
+            [{'name': 'thread%02d' % i, 'kind': 'thread', 'part': i} for i in range(nt)] +
+            [{'name': 'clockshift', 'kind': 'clock'}])
 
 
 def add(viols, sig, what, witness):
@@ -292,6 +294,91 @@ def hist_work(shard, tier, viols, counters, samples, keys):
     return evals
 
 
+def clock_specs(rng, tier, d1, d2s):
+    """Calls whose outcome may depend on the date: the clock-reading and date-carrying modules, on documented numbers,
+    date-forced candidates and the same numbers with their year fields set around the dates of the trial."""
+    from vm import c12
+    mods = C.number_modules()
+    names = sorted(set(C.clock_reading_modules()) | set(c12.SLICES) | set(c12.FIELDS))
+    years = sorted({d.year + k for d in [d1] + d2s for k in (-1, 0, 1)})
+    specs = []
+    for name in names:
+        if name not in mods:
+            continue
+        mod = mods[name]
+        nums = C.corpus(name, limit=5 if tier == 'quick' else 40, rng=rng)
+        try:
+            nums += c12.date_sources(name, mod, rng, 2 if tier == 'quick' else 12, require_valid=False)[:30 if tier == 'quick' else 400]
+        except Exception:  # noqa: B902
+            pass
+        extra = []
+        for v in nums[:8]:
+            for m in re.finditer(r'(?<![0-9])(19|20)[0-9]{2}(?![0-9])', v):
+                for y in years:
+                    extra.append(v[:m.start()] + str(y) + v[m.end():])
+            # two-digit year fields: positions known from the date field map
+            sl = c12.SLICES.get(name)
+            if sl is not None:
+                (y0, y1) = sl[0]
+                c = C.outcome(mod.compact, v)
+                if c[0] == 'ok' and isinstance(c[1], str) and len(c[1]) >= y1 and c[1][y0:y1].isdigit():
+                    for y in years:
+                        yy = str(y)[-(y1 - y0):]
+                        extra.append(c[1][:y0] + yy + c[1][y1:])
+        funcs = ['validate', 'is_valid'] + [f for f in sorted(calls.public_functions(mod)) if f.startswith('get_')]
+        for v in list(dict.fromkeys(nums + extra)):
+            for f in funcs:
+                specs.append({'module': name, 'func': f, 'args': [v]})
+    for i, sp in enumerate(specs):
+        sp['id'] = i
+    return specs
+
+
+def clock_work(shard, tier, viols, counters, samples, keys):
+    """Import-time capture of the date: a process that loaded the library at D1 and is still running at D2 must answer
+    like one started at D2 (the statement lets results depend on the system date, not on the date of import)."""
+    import datetime
+    rng = C.rng_for('C13', 'clockshift')
+    d1 = datetime.date.today()
+    d2s = [d1 + datetime.timedelta(days=500), datetime.date(d1.year + 31, 1, 1)]
+    specs = clock_specs(rng, tier, d1, d2s)
+    evals = 0
+    env = dict(os.environ)
+    env['PYTHONHASHSEED'] = '0'
+    env['PYTHONDONTWRITEBYTECODE'] = '1'
+    for d2 in d2s:
+        res = {}
+        for mode in ('shift', 'pristine'):
+            p = subprocess.run([PY, '-B', os.path.join(HERE, 'clocktrial.py'), mode, d1.isoformat(), d2.isoformat()],
+                               input=json.dumps(specs).encode(), stdout=subprocess.PIPE, stderr=subprocess.PIPE, env=env, timeout=1800)
+            if p.returncode != 0:
+                raise C.Inconclusive('clock trial %s failed: %s' % (mode, p.stderr.decode('utf-8', 'replace')[-400:]))
+            res[mode] = json.loads(p.stdout.decode())
+        counters['clock_trials'] = counters.get('clock_trials', 0) + 1
+        counters['clock_reads_during_import'] = counters.get('clock_reads_during_import', 0) + res['shift']['__meta__']['clock_reads_during_import']
+        counters['clock_reads_in_trials'] = counters.get('clock_reads_in_trials', 0) + res['shift']['__meta__']['clock_reads_total']
+        differing_dates = 0
+        for sp in specs:
+            a, b = res['shift'].get(str(sp['id'])), res['pristine'].get(str(sp['id']))
+            evals += 2
+            if a is None or b is None or 'harness-error' in (a[0], b[0]):
+                counters['oracle_errors'] += 1
+                continue
+            keys.add('clock|%s|%s|%s|%s' % (sp['module'], sp['func'], sp['args'][0], d2))
+            if a != b:
+                add(viols, 'C13|%s.%s|depends-on-the-date-of-import' % (sp['module'], sp['func']),
+                    '%s.%s(%r) on %s: %r in a process that imported the library on %s, %r in one started on %s' % (
+                        sp['module'], sp['func'], sp['args'][0], d2, a, d1, b, d2),
+                    {'kind': 'clock', 'call': {k: sp[k] for k in ('module', 'func', 'args')}, 'd1': d1.isoformat(), 'd2': d2.isoformat()})
+        if len(samples) < 2 and specs:
+            samples.append({'clock_trial': {'imported_on': d1.isoformat(), 'calls_on': d2.isoformat(), 'calls': len(specs),
+                                            'clock_reads': res['shift']['__meta__']['clock_reads_total'],
+                                            'first_call': [specs[0]['module'], specs[0]['func'], specs[0]['args']],
+                                            'outcome': res['shift'].get('0')}})
+    counters['clock_calls'] = counters.get('clock_calls', 0) + len(specs) * len(d2s)
+    return evals
+
+
 def thread_specs(rng, tier):
     """A set of calls that touch lazily loaded things, with plain arguments."""
     mods = C.number_modules()
@@ -519,6 +606,8 @@ def work(shard, tier):
     sets = {}
     if shard['kind'] == 'hist':
         evals = hist_work(shard, tier, viols, counters, samples, keys)
+    elif shard['kind'] == 'clock':
+        evals = clock_work(shard, tier, viols, counters, samples, keys)
     else:
         evals = thread_work(shard, tier, viols, counters, samples, keys, sets)
     return {'evaluations': evals, 'nontrivial_keys': sorted(keys), 'nontrivial': 0, 'violations': list(viols.values()),
@@ -558,6 +647,16 @@ def replay(w):
             ref = oracle([dict(s, id=0)], '0')
             if ref.get(0) != o:
                 add(viols, 'C13|%s.%s|differs-from-pristine-process' % (s['module'], s['func']), '%r vs %r' % (o, ref.get(0)), w)
+    elif w['kind'] == 'clock':
+        sp = dict(w['call'], id=0)
+        env = dict(os.environ, PYTHONHASHSEED='0', PYTHONDONTWRITEBYTECODE='1')
+        res = {}
+        for mode in ('shift', 'pristine'):
+            p = subprocess.run([PY, '-B', os.path.join(HERE, 'clocktrial.py'), mode, w['d1'], w['d2']], input=json.dumps([sp]).encode(),
+                               stdout=subprocess.PIPE, stderr=subprocess.PIPE, env=env, timeout=600)
+            res[mode] = json.loads(p.stdout.decode()).get('0')
+        if res['shift'] != res['pristine']:
+            add(viols, 'C13|%s.%s|depends-on-the-date-of-import' % (sp['module'], sp['func']), '%r vs %r' % (res['shift'], res['pristine']), w)
     elif w['kind'] == 'hashseed':
         s = dict(w['call'], id=0)
         a, b, c = oracle([s], '0'), oracle([s], '1'), oracle([s], '2')
